@@ -7,7 +7,19 @@ usage: seeded_run.py [--all] [--tier quick|thorough] [seeded-id ...]
 import json, subprocess, sys, time
 from pathlib import Path
 V = Path(__file__).resolve().parent.parent
-REPO = Path("/repo")
+import os, shutil, tempfile
+INPLACE = "--in-place" in sys.argv
+if INPLACE:
+    REPO = Path("/repo")
+else:
+    # default: a scratch worktree of /repo (so that concurrently running checks against /repo are not disturbed);
+    # `--in-place` applies to /repo itself and undoes it straight afterwards.
+    REPO = Path(tempfile.mkdtemp(prefix="seeded_repo_", dir="/tmp"))
+    os.rmdir(REPO)
+    subprocess.run(["git", "-C", "/repo", "worktree", "add", "--detach", "-q", str(REPO)], check=True)
+    import atexit
+    atexit.register(lambda: subprocess.run(["git", "-C", "/repo", "worktree", "remove", "--force", str(REPO)]))
+os.environ["VERIF_REPO"] = str(REPO)
 args = sys.argv[1:]
 allc = "--all" in args
 tier = "quick"
